@@ -22,6 +22,7 @@ from __future__ import annotations
 from collections.abc import Mapping
 from typing import Union
 
+from numpy import array_equal
 from numpy import asarray
 from numpy import isfinite
 from numpy.linalg import norm
@@ -90,11 +91,25 @@ def compare_dict_of_arrays(
                 spnorm(value) if isinstance(value, sparse_classes) else norm(value)
             )
 
-            # A non-finite difference (NaN or infinite input) is not within the
-            # tolerance.
-            if not (
-                isfinite(norm_diff) and norm_diff <= tolerance * (1.0 + norm_ref)
-            ):
+            if not isfinite(norm_diff):
+                # NaN or infinite components make the norms meaningless:
+                # these components shall be identical
+                # and the other ones are compared with the tolerance.
+                if isinstance(difference, sparse_classes):
+                    return False
+
+                value_ = asarray(value)
+                other_value_ = asarray(other_value).reshape(value_.shape)
+                is_finite = isfinite(value_)
+                if (is_finite != isfinite(other_value_)).any() or not array_equal(
+                    value_[~is_finite], other_value_[~is_finite], equal_nan=True
+                ):
+                    return False
+
+                norm_diff = norm(other_value_[is_finite] - value_[is_finite])
+                norm_ref = norm(value_[is_finite])
+
+            if norm_diff > tolerance * (1.0 + norm_ref):
                 return False
     else:
         for key, value in dict_of_arrays.items():
